@@ -2053,13 +2053,35 @@ def parse_stream(ctx, n_valid, n_bad, n_boot):
         items.append({"text": text.hex(), "kind": "bad_" + kind})
     from harness import common
     items.append({"text": open(os.path.join(common.REPO, "rig/boot/sark.struct"), "rb").read().hex(), "kind": "sark"})
-    boots = []
+    boots, tables = [], []
     for j, (it, m, o) in enumerate(parse_eval(ctx, items)):
         if "ok" in m:
+            tables.append(m["ok"])
             table = table_of_parse(m["ok"], bytes.fromhex(it["text"]))
             if table is not None and len(boots) < n_boot and (it["kind"] == "valid_bootable" or rng.random() < 0.3):
                 boots.append(boot_case_of_text(rng, table, j))
                 ctx.tag("parse_text_booted")
+    # the round trip of theorem parse_print on the implementation: for a table the Lean check tableWFB accepts,
+    # read_struct_file(printStructs table) must be the table (tables = what the texts above parsed to, some with
+    # sizes / bases / offsets / defaults replaced by other integers incl. negative ones)
+    for t in tables:
+        if rng.random() < 0.3:
+            for s_ in t:
+                if rng.random() < 0.5:
+                    s_[rng.choice([1, 2])] = rng.choice([-1, 0, -2 ** 31, 2 ** 64, 7])
+                for f in s_[3]:
+                    if rng.random() < 0.3:
+                        f[rng.choice([2, 4])] = rng.choice([-1, -128, 2 ** 40, 0, 10, 16])
+    pr = ctx.lean([{"suite": "c20parse", "op": "print", "structs": t} for t in tables])
+    for t, r in zip(tables, pr):
+        ctx.tag("print_wf" if r["wf"] else "print_not_wf")
+        if not r["wf"]:
+            continue
+        o = parse_impl(bytes.fromhex(r["text"]))
+        ctx.traces += 1
+        if o != {"ok": t}:
+            ctx.mismatch("c20.print_roundtrip", "read_struct_file(printStructs T) is not T: %s" % str(o)[:300],
+                         {"parse": {"text": r["text"], "kind": "printed"}})
     return boots
 
 
@@ -2126,5 +2148,7 @@ def replay(ctx, payload):
     if "calls" not in case:
         return
     report(ctx, [case], evaluate(ctx, [case]), do_shrink=False)
-THEOREMS += ["perl_packs_documented", "sark_parsed", "sark_table_embeds", "parsedSv_eq", "boot_meets_spec_parsed"]   # Props/C20Parse.lean
+THEOREMS += ["perl_packs_documented", "sark_parsed", "sark_table_embeds", "parsedSv_eq", "boot_meets_spec_parsed",
+             "parse_print", "parse_print_decided", "sark_table_wf", "sark_print_roundtrip", "packValueFull_plain",
+             "field_line_accepted", "field_line_raises", "line_syntax_error"]   # Props/C20Parse.lean
 THEOREMS += ['gen_boot_packet', 'header_be', 'bp_loop']   # translator tie: generated function bodies = model (Props/C20Gen.lean)
